@@ -9,6 +9,7 @@ import (
 
 // RuleCase is one field carrying one rule configuration.
 type RuleCase struct {
+	Msg   string // message carrying the field (default "R")
 	Field string
 	Kind  string
 	Card  string
@@ -135,6 +136,39 @@ func RuleSpecs(thorough bool) ([]*spec.Spec, map[string][]RuleCase) {
 			RuleCase{Kind: "string", Card: "repeated", Label: "rule=required", Rules: "required:true"},
 		)
 		mk("rules_collections", "collections", cs)
+	}
+	{
+		// the same rules on multi-word field names and in messages whose schema is built by another code path
+		var cs []RuleCase
+		common := func() []*spec.Field {
+			return []*spec.Field{spec.F("account_id", "string").R("required:true"), spec.F("display_name", "string").R("string:{min_len:2}"),
+				spec.F("unit_count", "int32").R("int32:{gt:0}"), spec.F("currency_code", "string").R("string:{max_len:5}"), spec.F("max_items", "int64").R("required:true")}
+		}
+		txt := func() *spec.Field { return spec.Msg("text", "TextContent").In("content") }
+		img := func() *spec.Field { return spec.Msg("image", "ImageContent").In("content") }
+		shapes := []struct {
+			name, key string
+			m         *spec.Message
+		}{
+			{"PlainWords", "plain", spec.M("PlainWords", common()...)},
+			{"NestedOneofWords", "nested_oneof", spec.M("NestedOneofWords", append(common(), txt(), img())...).WithOneof(&spec.Oneof{Name: "content", Config: true, Disc: "kind"})},
+			{"PlainOneofWords", "plain_oneof", spec.M("PlainOneofWords", append(common(), txt(), img())...).WithOneof(&spec.Oneof{Name: "content"})},
+			{"UnwrapSiblingWords", "unwrap_sibling", spec.M("UnwrapSiblingWords", append(common(), spec.Msg("bars_by_key", "BarList").Map())...)},
+		}
+		msgs := []*spec.Message{spec.M("TextContent", spec.F("body", "string")), spec.M("ImageContent", spec.F("url", "string")), spec.M("BarList", spec.F("values", "int32").Rep().Unw()), spec.M("Out", spec.F("ok", "bool"))}
+		svc := spec.Svc("RuleShapeService", "/rs")
+		for _, sh := range shapes {
+			msgs = append(msgs, sh.m)
+			svc.Methods = append(svc.Methods, spec.RPC("Check"+sh.name, sh.name, "Out", "POST", "/"+sh.key))
+			for _, f := range common() {
+				rule := map[string]string{"account_id": "rule=required", "display_name": "rule=min_len,bound=2", "unit_count": "rule=gt,bound=0", "currency_code": "rule=max_len,bound=5", "max_items": "rule=required"}[f.Name]
+				rules := map[string]string{"account_id": "required:true", "display_name": "string:{min_len:2}", "unit_count": "int32:{gt:0}", "currency_code": "string:{max_len:5}", "max_items": "required:true"}[f.Name]
+				cs = append(cs, RuleCase{Msg: sh.name, Field: f.Name, Kind: f.Kind, Label: rule + ",shape=" + sh.key + ",field=" + f.Name, Rules: rules})
+			}
+		}
+		f := &spec.File{Messages: msgs, Services: []*spec.Service{svc}}
+		out = append(out, withCell(spec.One("rules_shapes", f), "rules/kind=shapes", "extended", "valid", "rules"))
+		cases["rules_shapes"] = cs
 	}
 	return out, cases
 }
